@@ -337,6 +337,11 @@ func ReadFloat32ArrayFromBytes(data []byte) ([]float32, error) {
 		values = append(values, math.Float32frombits(uintElement))
 	}
 
+	if err == nil {
+		// A short read: data does not consist of whole elements.
+		return nil, io.ErrUnexpectedEOF
+	}
+
 	if err != io.EOF {
 		return nil, err
 	}
@@ -364,6 +369,11 @@ func ReadFloat64ArrayFromBytes(data []byte) ([]float64, error) {
 
 		uintElement := binary.LittleEndian.Uint64(element)
 		values = append(values, math.Float64frombits(uintElement))
+	}
+
+	if err == nil {
+		// A short read: data does not consist of whole elements.
+		return nil, io.ErrUnexpectedEOF
 	}
 
 	if err != io.EOF {
@@ -462,6 +472,11 @@ func ReadUint16ArrayFromBytes(data []byte) ([]uint16, error) {
 		values = append(values, binary.LittleEndian.Uint16(element))
 	}
 
+	if err == nil {
+		// A short read: data does not consist of whole elements.
+		return nil, io.ErrUnexpectedEOF
+	}
+
 	if err != io.EOF {
 		return nil, err
 	}
@@ -488,6 +503,11 @@ func ReadInt16ArrayFromBytes(data []byte) ([]int16, error) {
 		}
 
 		values = append(values, int16(binary.LittleEndian.Uint16(element)))
+	}
+
+	if err == nil {
+		// A short read: data does not consist of whole elements.
+		return nil, io.ErrUnexpectedEOF
 	}
 
 	if err != io.EOF {
@@ -518,6 +538,11 @@ func ReadUint32ArrayFromBytes(data []byte) ([]uint32, error) {
 		values = append(values, binary.LittleEndian.Uint32(element))
 	}
 
+	if err == nil {
+		// A short read: data does not consist of whole elements.
+		return nil, io.ErrUnexpectedEOF
+	}
+
 	if err != io.EOF {
 		return nil, err
 	}
@@ -544,6 +569,11 @@ func ReadInt32ArrayFromBytes(data []byte) ([]int32, error) {
 		}
 
 		values = append(values, int32(binary.LittleEndian.Uint32(element)))
+	}
+
+	if err == nil {
+		// A short read: data does not consist of whole elements.
+		return nil, io.ErrUnexpectedEOF
 	}
 
 	if err != io.EOF {
@@ -574,6 +604,11 @@ func ReadUint64ArrayFromBytes(data []byte) ([]uint64, error) {
 		values = append(values, binary.LittleEndian.Uint64(element))
 	}
 
+	if err == nil {
+		// A short read: data does not consist of whole elements.
+		return nil, io.ErrUnexpectedEOF
+	}
+
 	if err != io.EOF {
 		return nil, err
 	}
@@ -600,6 +635,11 @@ func ReadInt64ArrayFromBytes(data []byte) ([]int64, error) {
 		}
 
 		values = append(values, int64(binary.LittleEndian.Uint64(element)))
+	}
+
+	if err == nil {
+		// A short read: data does not consist of whole elements.
+		return nil, io.ErrUnexpectedEOF
 	}
 
 	if err != io.EOF {
